@@ -130,11 +130,12 @@ def run(ctx):
                     div_samples.setdefault(dsig, lb)
                 if not lb["ok"]:
                     why = "empty" if "" in lb["got"] else "wrong-directory"
-                    sig = f"C10:loadbase:load:{rr['name']}:{why}"
+                    where = "+".join(lb.get("placements", [])) or "?"
+                    sig = f"C10:loadbase:load:{rr['name']}:{why}:{where}"
                     _merge_violation(violations, sig, dict(
                         kind="batch", cases=1, entries=["ir.load"],
                         message=(f"ir.load({'/'.join(rr['mp'])!r}) (working directory /{'/'.join(rr['cwd'])}) gave the external "
-                                 f"tensors base_dir={lb['got']!r}; the specification demands a non-empty spelling of the model's "
+                                 f"tensors at {lb.get('placements')} base_dir={lb['got']!r}; the specification demands a non-empty spelling of the model's "
                                  f"directory ({'/'.join(rr['b'])!r})"),
                         inst=rr["i"], spelling=rr["s"], spelling_name=rr["name"], route="load",
                         root={k: v for k, v in rr.items() if k != "spells"},
@@ -190,6 +191,10 @@ def run(ctx):
     ctx.extra["design_pinned_load_derivation_violates"] = sorted(set(resd.violated))
     if "LoadBase" not in resd.violated:
         ctx.note("PathContainMC_loaddev.cfg: TLC did not report LoadBase violated for dirname() without fallback")
+    resr = ctx.tlc(MC, os.path.join(EXT, "PathContainMC_loadreach.cfg"), tag="loadreach", deadlock=False, count=False, timeout=600)
+    ctx.extra["design_main_graph_only_traversal_violates"] = sorted(set(resr.violated))
+    if "LoadBase" not in resr.violated:
+        ctx.note("PathContainMC_loadreach.cfg: TLC did not report LoadBase violated for a traversal that skips functions")
     cfgc = _cfg(ctx.scratch, "PathContainMC_proto.cfg", "proto_cov.cfg", MaxDepth=1, EmitOn="FALSE")
     resc = ctx.tlc(MC, cfgc, tag="cov", deadlock=False, coverage=True, count=False, timeout=600)
     cov = {k.split("!")[1]: v[0] for k, v in resc.coverage.items() if k.startswith("PathContainMC!P")}
